@@ -171,7 +171,12 @@ class World:
                 fac, udim, tdim = self.term_denotation(how[1])
                 if tdim != tm.dim:
                     return 'reject', 'definition of another dimension'
-                if tm.ref is None:
+                if tm.ref is None and tm.base:
+                    # without a common scale the units themselves are the
+                    # dimensions: the term has to reduce to one of them
+                    if len(udim) != 1 or udim[0][1] != 1:
+                        return 'reject', 'definition of another dimension'
+                elif tm.ref is None:
                     return 'unspecified', 'term unit in type without ref'
             elif how[0] == 'derive':
                 if tm.base:
